@@ -218,7 +218,13 @@ impl C10 {
                             bad_text = Some(what);
                         }
                     };
-                    let in_stream = |v: i32| bytes.windows(4).any(|w| w == v.to_be_bytes());
+                    // (big inputs: one pass to collect every four-byte window, instead of one scan per coordinate - the scan made this
+                    // monitor quadratic, and the largest `scaling` case of the thorough tier timed out on the unchanged tree)
+                    let windows: Option<std::collections::HashSet<u32>> = if bytes.len() > 8192 { Some(bytes.windows(4).map(|w| u32::from_be_bytes([w[0], w[1], w[2], w[3]])).collect()) } else { None };
+                    let in_stream = |v: i32| match &windows {
+                        Some(set) => set.contains(&(v as u32)),
+                        None => bytes.windows(4).any(|w| w == v.to_be_bytes()),
+                    };
                     let mut coord = |p: &gds21::GdsPoint| {
                         for v in [p.x, p.y] {
                             if invented.is_none() && !in_stream(v) {
